@@ -277,6 +277,9 @@ func (c *Conn) CallRPC(in *In) *Out {
 		var res r3.ACCESS3res
 		if do(r3.NFSPROC3_ACCESS, &r3.ACCESS3args{Object: rfh(in.Obj), Access: 0x3f}, &res) {
 			out.Status = uint32(res.Status)
+			if res.Status == 0 {
+				out.Attr = rpost(res.Resok.Obj_attributes)
+			}
 		}
 	case "readlink":
 		var res r3.READLINK3res
